@@ -507,3 +507,16 @@ func Digest(hashes []string) string {
 	h := sha256.Sum256([]byte(strings.Join(hashes, ",")))
 	return fmt.Sprintf("%x", h[:8])
 }
+
+// MaxAlts is the largest number of alternatives of any ordered choice in the grammar.
+func (g *Grammar) MaxAlts() int {
+	m := 0
+	for _, r := range g.G.Rules {
+		walk(r.E, func(e *E) {
+			if e.K == ref.KAlt && len(e.Kids) > m {
+				m = len(e.Kids)
+			}
+		})
+	}
+	return m
+}
